@@ -111,7 +111,7 @@ FewSettings == {Setting(10, 0, 150, TRUE), Setting(0, 1, 80, FALSE), Setting(10,
 
 Graphs == {Pair(c) : c \in Chains}
 \* a Raman estimation costs ~0.3 s in the real code: the Raman chains run under the half fraction of the settings
-GraphsHalf == {Pair(c) : c \in Raman} \cup (IF Tier = "quick" THEN {} ELSE {Line3(c, d) : c \in Chains, d \in Chains})
+GraphsHalf == {Pair(c) : c \in Raman} \cup (IF Tier = "quick" THEN {} ELSE {Line3(c, d) : c \in Chains, d \in Reps})
 GraphsFew == IF Tier = "quick"
              THEN {Line3(c, d) : c \in Reps, d \in Reps} \cup {Tri(c, d, e) : c \in Few, d \in Few, e \in {<<F(80 * km)>>}}
              ELSE {Tri(c, d, e) : c \in Reps, d \in Reps, e \in Few} \cup {Star(c, d, e) : c \in Reps, d \in Reps, e \in Few}
